@@ -255,6 +255,15 @@ def run(ctx):
             for _ in range(10 if not thorough else 150):
                 ops, steps = gen_crash_history(rng)
                 hist.append(("H 1000 " + ";".join(ops + ["d", "KW", "d"]), steps, "window"))
+            # a stale <store>.tmp left by a process killed inside an earlier compaction (in full, torn, or junk): the
+            # next compaction must not build on it, and the state must survive that compaction, a clean close and a reopen
+            for i in range(12 if not thorough else 150):
+                o1, _ = gen_crash_history(rng)
+                o2, _ = gen_crash_history(rng)
+                o3, _ = gen_crash_history(rng)
+                w = ["W:full", "W:half", "W:junk:%s" % hx(bytes(rng.randrange(256) for _ in range(rng.randint(1, 40))))][i % 3]
+                ops = o1 + ["K"] + o2 + [w] + o3 + ["d", "K", "d", "O", "d", "S:7a7a:31", "O", "d"]
+                hist.append(("H 1000 " + ";".join(ops), None, "staletmp"))
             li, lm, logs = vlib.run_pair(ctx, impl_exe, model_exe, [h[0] for h in hist], "c11h")
             cut_cases = []
             for (line, steps, kind), ri, rm in zip(hist, li, lm):
@@ -264,6 +273,25 @@ def run(ctx):
                     continue
                 reads_i, snap_i, log_i = split_files(ri)
                 reads_m, _, _ = split_files(rm)
+                if kind == "staletmp":
+                    kinds["staletmp"] = kinds.get("staletmp", 0) + 1
+                    toks = reads_i.split(" ")
+                    ds = [t[2:] for t in toks if t.startswith("d:")]
+                    if "EXC" in toks or "OPENFAIL" in toks or len(ds) != 4:
+                        v.property_failure("reopen-fails", "with a stale .tmp left by a killed compaction the store throws on compaction / reopen",
+                                           line, reads_i[:600])
+                        continue
+                    if not (ds[0] == ds[1] == ds[2]) or ds[3] != with_zz(ds[0]):
+                        v.property_failure("crash-continuation", "after a compaction that found a stale .tmp (left by a process killed inside an "
+                                           "earlier compaction) acknowledged writes are lost / old values reappear at the next reopen",
+                                           line, "before compaction=%s\nafter compaction=%s\nafter reopen=%s\nafter set(zz)+reopen=%s" % tuple(d[:300] for d in ds))
+                        continue
+                    if reads_i != reads_m:
+                        disagree += 1
+                        v.disagreement("C11 correspondence: model and implementation differ on a stale-tmp history", line, reads_i, reads_m)
+                    else:
+                        nontrivial.add(line)
+                    continue
                 if strip_win(reads_i) != strip_win(reads_m):
                     disagree += 1
                     v.disagreement("C11 correspondence: model and implementation differ on a history", line, reads_i, reads_m)
@@ -350,7 +378,9 @@ def run(ctx):
                         "values 0..40 bytes) executed on a real KVStore; phase 2: the real log is cut at EVERY byte offset (all "
                         "offsets for logs up to the tier's bound, otherwise record boundaries +/- random offsets), each image is "
                         "reopened by a fresh KVStore, checked for admissibility against the operation list, continued with an "
-                        "acknowledged set, closed and reopened again; compaction windows (new snapshot + old log); JsonFileStore "
+                        "acknowledged set, closed and reopened again; compaction windows (new snapshot + old log); histories in which a "
+                        "stale <store>.tmp (a full / torn earlier snapshot or junk, as a process killed inside a compaction leaves it) is "
+                        "present when the next compaction runs, followed by reopen, an acknowledged set and another reopen; JsonFileStore "
                         "histories with the flush discipline observed through fopen interposition. evaluations counts crash images; "
                         "non-trivial = distinct images/histories whose every cut was admissible and agreed with the model.",
                 "samples": [h[0][:300] for h in hist[:2]] + [c[0][:200] for c in cut_cases[:2]],
